@@ -126,16 +126,15 @@ func DetectAndReadInput(input string) (*InputResult, error) {
 		}, nil
 	}
 
-	// If stat failed, check if it looks like a file path that doesn't exist
-	// (contains path separators or has .sql extension)
-	if strings.Contains(input, string(filepath.Separator)) || strings.HasSuffix(strings.ToLower(input), ".sql") {
-		// Looks like a file path but doesn't exist - return the original stat error
-		return nil, fmt.Errorf("invalid file path: %w", statErr)
-	}
-
-	// Input is not a file path, treat as direct SQL
-	// Validate that it looks like SQL (basic heuristics)
+	// Not an existing file. Text that starts like a SQL statement is direct SQL
+	// even when it contains a path separator: "SELECT a / b FROM t" and
+	// "SELECT 1 /* note */" are queries, not paths.
 	if !looksLikeSQL(input) {
+		// If it looks like a file path that doesn't exist (contains path
+		// separators or has .sql extension) return the original stat error
+		if strings.Contains(input, string(filepath.Separator)) || strings.HasSuffix(strings.ToLower(input), ".sql") {
+			return nil, fmt.Errorf("invalid file path: %w", statErr)
+		}
 		return nil, fmt.Errorf("input does not appear to be valid SQL or a file path: %s", input)
 	}
 
@@ -167,6 +166,7 @@ func looksLikeSQL(input string) bool {
 	keywords := []string{
 		"SELECT", "INSERT", "UPDATE", "DELETE", "CREATE", "DROP", "ALTER",
 		"TRUNCATE", "WITH", "MERGE", "EXPLAIN", "ANALYZE", "SHOW", "DESCRIBE", "DESC",
+		"REFRESH", "REPLACE",
 	}
 	for _, kw := range keywords {
 		if strings.HasPrefix(upper, kw+" ") || strings.HasPrefix(upper, kw+"\n") || strings.HasPrefix(upper, kw+"\t") || upper == kw {
